@@ -308,3 +308,33 @@ theorem bracketDepth_opens (names : List Str) (hn : ∀ n ∈ names, ∀ c ∈ n
   rw [this]; omega
 
 end VtModel.Vpl
+
+namespace VtModel.Vpl
+
+theorem listMax_le {X : Type} (f : X → Nat) (xs : List X) (k : Nat) (h : ∀ x ∈ xs, f x ≤ k) : listMax f xs ≤ k := by
+  induction xs with
+  | nil => exact Nat.zero_le _
+  | cons x xs ih =>
+    have h1 := h x (List.mem_cons_self ..)
+    have h2 := ih (fun y hy => h y (List.mem_cons_of_mem _ hy))
+    simp only [listMax]; omega
+
+/-- **sequential is not nested**: for any number of balanced pieces written one after the other the guard sees
+    the largest height among them, not their sum (2000 times `[]` is depth 1) -/
+theorem bracketDepth_sequence {X : Type} (chunk : X → Str) (f : X → Nat) (xs : List X)
+    (h : ∀ x ∈ xs, Bal (chunk x) (f x)) : bracketDepth ((xs.map chunk).flatten) = listMax f xs := by
+  rw [bracketDepth_eq]
+  have := Bal.flatten chunk f xs h 0 0 (Nat.le_refl _)
+  simp only [outSt] at this
+  rw [this]; simp
+
+theorem bracketDepth_sequence_le {X : Type} (chunk : X → Str) (f : X → Nat) (xs : List X) (k : Nat)
+    (h : ∀ x ∈ xs, Bal (chunk x) (f x)) (hk : ∀ x ∈ xs, f x ≤ k) : bracketDepth ((xs.map chunk).flatten) ≤ k := by
+  rw [bracketDepth_sequence chunk f xs h]; exact listMax_le f xs k hk
+
+/-- `[` `]` is balanced with height 1 -/
+theorem Bal.emptyBrackets : Bal ['[', ']'] 1 := by
+  have := Bal.bracket Bal.nil
+  simpa using this
+
+end VtModel.Vpl
